@@ -1,7 +1,149 @@
-(* placeholder while the correspondence is being validated *)
-Theorem C10_iff : True. Proof. exact I. Qed.
-Theorem C10_reject_outside : True. Proof. exact I. Qed.
-Theorem C10_corruptions : True. Proof. exact I. Qed.
-Theorem C10_doubles : True. Proof. exact I. Qed.
-Theorem C10_gate : True. Proof. exact I. Qed.
-Theorem C10_multiplicity : True. Proof. exact I. Qed.
+(** C10  The validity check accepts exactly the extensions that meet the format rules.
+    Model: Content/Model.v (check_valid and its callees, from_json, from_runtime_repr, NiftiWrapper.__init__);
+    rules: Content/Spec.v (valid_spec = conjunction of eight clauses, wf_domain); proofs: Content/Proofs*.v. *)
+From Coq Require Import List Bool ZArith NArith QArith.
+From DV Require Import Common.Res Common.Str Common.Jv Generated.T_content
+  Content.PyVal Content.Model Content.Spec Content.ProofsClasses Content.ProofsMain
+  Content.ProofsCorrupt Content.ProofsOutside Content.ProofsTop Content.Examples.
+Import ListNotations.
+Open Scope Z_scope.
+
+(** The check accepts a content iff it meets every rule. *)
+Theorem C10_iff :
+  forall c : jv, wf_domain c = true -> (check_valid c = Ok tt <-> valid_spec c = true).
+Proof. exact check_valid_iff_spec. Qed.
+
+Example C10_iff_nonvacuous :
+  wf_domain ex_content = true /\ check_valid ex_content = Ok tt /\ valid_spec ex_content = true /\
+  wf_domain (JObj ex_short) = true /\ check_valid (JObj ex_short) = Err EInvalidExt /\
+  valid_spec (JObj ex_short) = false.
+Proof. vm_compute. repeat split; reflexivity. Qed.
+
+(** Rejections that do not go through the rules: every [Err] is a rejection; a content that is not
+    a dict raises TypeError, a missing version KeyError, an unknown version KeyError (TypeError
+    when it is unhashable). *)
+Theorem C10_reject_outside :
+  (forall c e, check_valid c = Err e -> check_valid c <> Ok tt) /\
+  (forall c, is_dict c = false -> check_valid c = Err EType) /\
+  (forall o, jassoc K_version o = None -> check_valid (JObj o) = Err EKey) /\
+  (forall o v, jassoc K_version o = Some v -> version_fields v = None ->
+               check_valid (JObj o) = Err EKey \/ check_valid (JObj o) = Err EType).
+Proof. exact reject_outside_thm. Qed.
+
+Example C10_reject_outside_nonvacuous :
+  check_valid (JArr []) = Err EType /\
+  check_valid (JObj (jdel K_version ex_obj)) = Err EKey /\
+  check_valid (JObj (jset K_version (JNum [48; 46; 55]%N) ex_obj)) = Err EKey /\
+  check_valid (JObj (jset K_version (JArr []) ex_obj)) = Err EType.
+Proof. vm_compute. repeat split; reflexivity. Qed.
+
+(** Every single corruption of the kinds listed by the property, applied to a valid content so
+    that it breaks a rule (the side conditions of [corrupts]), falsifies that rule and is rejected. *)
+Theorem C10_corruptions :
+  forall (o o' : obj) (k : ckind),
+    valid_spec (JObj o) = true -> corrupts k o o' ->
+    holds (broken_rule k) o' = false /\
+    (wf_domain (JObj o') = true -> check_valid (JObj o') <> Ok tt).
+Proof. exact corruptions_thm. Qed.
+
+Example C10_corruptions_nonvacuous :
+  valid_spec (JObj ex_obj) = true /\
+  corrupts KChangeValueCount ex_obj ex_short /\ wf_domain (JObj ex_short) = true /\
+  corrupts KDupKey ex_obj ex_dup /\ wf_domain (JObj ex_dup) = true /\
+  corrupts KVersion ex_obj ex_v06 /\ wf_domain (JObj ex_v06) = true /\
+  corrupts KDropField ex_obj (jdel K_affine ex_obj) /\
+  corrupts KSliceDim ex_obj (jset K_slice_dim (JInt 3) ex_obj) /\
+  corrupts KShapeLen ex_obj (jset K_shape (JArr [JInt 2; JInt 2]) ex_obj) /\
+  corrupts KShapeEntry ex_obj (jset K_shape (JArr [JInt 2; JInt 2; JInt 4; JInt 2]) ex_obj) /\
+  corrupts KAffine ex_obj (jset K_affine (JArr []) ex_obj) /\
+  corrupts KDropBase ex_obj (jdel N_time ex_obj) /\
+  corrupts KDropSub ex_obj (jset N_time (JObj (jdel N_slices [(N_samples, JObj ex_tsamples); (N_slices, JObj ex_tslices)])) ex_obj).
+Proof.
+  assert (Hin : forall cl, In cl [cl_gconst; cl_gslices; cl_tsamples; cl_tslices] ->
+                           In cl (valid_classes_spec ex_shape)) by (intros cl H; exact H).
+  repeat split; try (vm_compute; reflexivity).
+  - apply (C_value_count ex_obj ex_shape (Some 2%nat) cl_tslices Time Slices ex_tslices
+             [83; 108; 105; 99; 101; 76; 111; 99; 97; 116; 105; 111; 110]%N
+             [JInt 0; JInt 1; JInt 2] [JInt 0; JInt 1]);
+      try reflexivity; try (apply Hin; simpl; tauto); simpl; discriminate.
+  - apply (C_dup_key ex_obj ex_shape cl_gconst cl_tsamples ex_const ex_tsamples);
+      try reflexivity; try (apply Hin; simpl; tauto); discriminate.
+  - apply C_version. vm_compute.
+    exists [100; 99; 109; 109; 101; 116; 97; 95; 114; 101; 111; 114; 105; 101; 110; 116; 95; 116; 114; 97; 110; 115; 102; 111; 114; 109]%N.
+    repeat split; try reflexivity. right; left; reflexivity.
+  - apply (C_drop_field ex_obj K_affine (JNum [48; 46; 53]%N)
+             [K_affine; K_shape; K_slice_dim; K_version; N_global]); try reflexivity. left; reflexivity.
+  - apply C_slice_dim. reflexivity.
+  - apply C_shape_len. left. simpl. auto.
+  - apply (C_shape_entry ex_obj ex_shape [JInt 2; JInt 2; JInt 4; JInt 2] (Some 2%nat) cl_tslices
+             Time Slices ex_tslices
+             ([83; 108; 105; 99; 101; 76; 111; 99; 97; 116; 105; 111; 110]%N, JArr [JInt 0; JInt 1; JInt 2]));
+      try reflexivity; try (apply Hin; simpl; tauto); try (vm_compute; tauto); try discriminate.
+  - apply C_affine. reflexivity.
+  - apply (C_drop_base ex_obj ex_shape cl_tslices); try reflexivity. apply Hin; simpl; tauto.
+  - apply (C_drop_sub ex_obj ex_shape cl_tslices); try reflexivity. apply Hin; simpl; tauto.
+Qed.
+
+(** Double corruptions: the rules are independent clauses, each reading a few top-level fields.
+    (1) whatever was done to a content, if the result breaks a rule it is rejected;
+    (2) a second corruption that leaves the fields of a broken rule alone leaves it broken. *)
+Theorem C10_doubles :
+  (forall c, wf_domain c = true -> valid_spec c = false -> check_valid c <> Ok tt) /\
+  (forall (o1 o2 : obj) (r : rule),
+     holds r o1 = false -> same_fields (reads r) o1 o2 ->
+     holds r o2 = false /\ (wf_domain (JObj o2) = true -> check_valid (JObj o2) <> Ok tt)).
+Proof. exact doubles_thm. Qed.
+
+Example C10_doubles_nonvacuous :
+  holds RCounts ex_short = false /\ same_fields (reads RCounts) ex_short ex_double /\
+  wf_domain (JObj ex_double) = true /\ check_valid (JObj ex_double) = Err EInvalidExt.
+Proof.
+  repeat split; try (vm_compute; reflexivity).
+  intros k Hk. unfold ex_double. rewrite jassoc_jset.
+  destruct (str_eqb k K_affine) eqn:E; [|reflexivity].
+  apply str_eqb_eq in E. subst k. exfalso. vm_compute in Hk.
+  repeat (destruct Hk as [Hk|Hk]; [discriminate Hk|]). exact Hk.
+Qed.
+
+(** Neither loading from JSON, nor from_runtime_repr, nor wrapping an image hands back content that
+    check_valid rejects; and an image whose candidates are all invalid is refused
+    (MissingExtensionError) unless make_empty.  [parse] stands for json.loads. *)
+Theorem C10_gate :
+  (forall (parse : str -> res jv) s c,
+     from_json parse s = Ok c -> parse s = Ok c /\ check_valid c = Ok tt) /\
+  (forall c c', from_runtime_repr c = Ok c' -> c' = c /\ check_valid c = Ok tt) /\
+  (forall exts make_empty empty i c,
+     wrapper_init exts make_empty empty = Ok (i, c) ->
+     check_valid c = Ok tt /\
+     match i with
+     | Some n => nth_error exts n = Some (dcm_meta_ecode, c)
+     | None => make_empty = true /\ c = empty
+     end) /\
+  (forall exts empty,
+     (forall code c, In (code, c) exts -> code = dcm_meta_ecode -> check_valid c = Err EInvalidExt) ->
+     wrapper_init exts false empty = Err EMissingExt).
+Proof. exact gate_thm. Qed.
+
+Example C10_gate_nonvacuous :
+  from_json (fun _ => Ok ex_content) [] = Ok ex_content /\
+  from_json (fun _ => Ok (JObj ex_short)) [] = Err EInvalidExt /\
+  wrapper_init [(0, JObj ex_short); (6, JStr []); (0, ex_content)] false JNull = Ok (Some 2%nat, ex_content) /\
+  wrapper_init [(0, JObj ex_short); (0, JObj ex_dup)] false JNull = Err EMissingExt /\
+  wrapper_init [(0, ex_content); (0, ex_content)] false JNull = Err EValue.
+Proof. vm_compute. repeat split; reflexivity. Qed.
+
+(** get_valid_classes / get_multiplicity compute the documented class set and number of values. *)
+Theorem C10_multiplicity :
+  forall (o : obj) (zs : list Z) (sd : option nat),
+    jassoc K_shape o = Some (JArr (map JInt zs)) ->
+    (3 <= length zs)%nat -> (length zs <= 5)%nat ->
+    slice_dim_value o = Some sd ->
+    get_valid_classes (JObj o) = Ok (valid_classes_spec (map JInt zs)) /\
+    forall cl b s, In cl (valid_classes_spec (map JInt zs)) -> decode cl = Some (b, s) ->
+                   get_multiplicity (JObj o) cl = Ok (n_expected (map JInt zs) sd b s).
+Proof. exact multiplicity_thm. Qed.
+
+Example C10_multiplicity_nonvacuous :
+  get_valid_classes ex_content = Ok [cl_gconst; cl_gslices; cl_tsamples; cl_tslices] /\
+  map (get_multiplicity ex_content) [cl_gconst; cl_gslices; cl_tsamples; cl_tslices] = [Ok 1; Ok 6; Ok 2; Ok 3].
+Proof. vm_compute. split; reflexivity. Qed.
